@@ -143,6 +143,17 @@ def build_alphabet(lab, ents, root_of):
             if c == dflt:
                 add("path_default:%d" % i, {"f": "path", "sid": e}, group=gp)
                 add("path_None:%d" % i, {"f": "path", "sid": e, "args": [None]}, group=gp)
+    # an UNTYPED Sid whose string reads like the uri of a typed one (unknown prefix before a valid uri): asking it must not
+    # change what the typed Sid answers
+    for i, e in enumerate(typed[:2]):
+        te = model.natural(e)
+        uri = te.name + ":" + e
+        add("Sid_lookalike:%d" % i, {"f": "Sid", "args": ["zz:" + uri]})
+        add("path_lookalike:%d" % i, {"f": "path", "sid": "zz:" + uri})
+        add("path_lookalike_cfg:%d" % i, {"f": "path", "sid": "zz:" + uri, "args": [lab.configs[-1]]})
+        add("path_of_uri:%d" % i, {"f": "path", "sid": uri})
+        add("path_of_uri_cfg:%d" % i, {"f": "path", "sid": uri, "args": [lab.configs[-1]]})
+        add("match_lookalike:%d" % i, {"f": "match", "sid": "zz:" + uri, "search": e})
     # unfold_search: every flag combination, positional and keyword
     for i, s in enumerate(searches):
         for du in (False, True):
